@@ -20,6 +20,11 @@ class Coverage:
       None : Otherwise
     """
     if count_tag in self.tagnames and self.length:
+      count = self.get(count_tag)
+      if isinstance(count, bool) or not isinstance(count, (int, float)):
+        raise gfapy.TypeError(
+          "The count {} of segment {} is not a number ({})".format(
+            count_tag, self.name, repr(count)))
       if self.length - unit_length + 1 <= 0:
         raise gfapy.ValueError(
           "The unit length ({}) is larger than ".format(unit_length)+
